@@ -310,9 +310,9 @@ func init() {
 		Assumptions: []string{"reading D5: only the returned list and to/cc/bto/bcc are judged", "IRI equivalence on this alphabet is an equivalence relation (C14)"},
 		Bound: func(tier string) string {
 			if tier == "thorough" {
-				return "k <= 4 entries over 10 presentations and k <= 5 over the 6 presentations of the quick tier, 14 host types (+Block); to-lists of 15..129 distinct addressees with one repeat at the end / at index 1 / in cc / in bcc"
+				return "k <= 4 entries over 10 presentations and k <= 5 over the 6 presentations of the quick tier, 14 host types (+Block); to-lists of 15..129 distinct addressees with one repeat at the end / at index 1 / in cc / in bcc; families added after round 5: DESIGN.md 8.11"
 			}
-			return "k <= 4 entries over 6 presentations (a:iri, a:https, a:*Actor, b:iri, public, nil), 14 host types (+Block); to-lists of 15..129 distinct addressees with one repeat at the end / at index 1 / in cc / in bcc"
+			return "k <= 4 entries over 6 presentations (a:iri, a:https, a:*Actor, b:iri, public, nil), 14 host types (+Block); to-lists of 15..129 distinct addressees with one repeat at the end / at index 1 / in cc / in bcc; families added after round 5: DESIGN.md 8.11"
 		},
 		Run: c10Run,
 	})
